@@ -185,3 +185,6 @@ C10 = Prop(
     design_ref="4 Engine Log (C05, C10)",
     assumptions=["callables are side-effect free apart from being observed"],
 )
+
+for _p in (C05, C10):
+    _p.rule += " Callables also come as a plain function, as a pointer to a function and as a capturing lambda lvalue."
